@@ -513,6 +513,54 @@ spec('C12', run=run_c12, search=search_c12,
      assumptions=['format-then-parse oracle: 8u·(|v| + |offset|), when no conversion intermediate over/underflows'])
 
 
+# ------------------------------------------------------------------------------------------------
+# C13 / C14 / C18
+
+
+def misc_pipe(ctx, name, mode, tier=None, seed=None):
+    if not cargo_build(ctx, 'wide', ['misc']):
+        return None
+    dump = lean_dump(ctx)
+    if dump is None:
+        return None
+    res = pipe(ctx, name, '{ cat %s; %s %s; }' % (dump, bin_path('misc', False, 'wide'), mode), tier=tier, seed=seed)
+    absorb(ctx, res, name)
+    return res
+
+
+def run_c13(ctx, tier=None, seed=None):
+    misc_pipe(ctx, 'serde', 'serde', tier=tier, seed=seed)
+
+
+spec('C13', run=run_c13, search=search_with(run_c13),
+     rule='11 serde-capable storage types × 5 quantities in 5 base-unit sets (incl. temperature and angle kinds) × two data formats (JSON text, serde_json::Value tree): serialization of '
+          'seeded values compared with the stored value’s; deserialization of 18 malformed/edge inputs plus every serialized text compared with the storage type’s (accept/reject/value); non-trivial: every case',
+     trusted_base=['serde_json’s two Serializer/Deserializer implementations stand for “every serde data format”; the theorems are parametric in the format'],
+     assumptions=[])
+
+
+def run_c14(ctx, tier=None, seed=None):
+    misc_pipe(ctx, 'duration', 'dur', tier=tier, seed=seed)
+
+
+spec('C14', run=run_c14, search=search_with(run_c14),
+     rule='Time→Duration: f64/f32 × second, millisecond, minute, hour, nanosecond base units × every-binade values, neighbours of integers and of 2^64, subnormals, NaN, ±inf, −0.0; '
+          'i32/i64/u32/u64 × second, minute, nanosecond bases; Duration→Time: all-corner Durations (u64::MAX s, 999 999 999 ns, 2^53±1, …) and seeded ones; non-trivial: every case',
+     trusted_base=['std::time::Duration::new (carry, overflow panic) and num-traits to_u64/to_u32/from_u64/from_u32 are transcribed'],
+     assumptions=['integer-storage model comparison only while no fixed-width intermediate can overflow; the never-panics oracle applies always'])
+
+
+def run_c18(ctx, tier=None, seed=None):
+    misc_pipe(ctx, 'angle-ratio', 'trig', tier=tier, seed=seed)
+
+
+spec('C18', run=run_c18, search=search_with(run_c18),
+     rule='sin cos tan sinh cosh tanh sin_cos × 7 angle units × {f64 si, f32 kgh}; acos…atanh, exp exp2 ln log log2 log10 exp_m1 ln_1p × 11 ratio units; atan2 on 5 like-quantity '
+          'pairs in 5 base-unit sets; values: domain edges ±1, 0, ±0, quarter/half/full turns in each unit, 1e22, NaN, ±inf, every binade; the 8 constant read-backs per float type; non-trivial: every case',
+     trusted_base=['libm functions are parameters: the oracle is bit-equality with the storage type’s own function applied to the stored value'],
+     assumptions=[])
+
+
 def replay(ctx, spec_, path):
     with open(path, encoding='utf-8') as f:
         body = json.load(f)
